@@ -47,6 +47,13 @@ struct SigInt {
         s.notify(a * 7 + 1);
         return 0;
     }
+    // the argument is an lvalue that lives in the calling observer's own closure: the values of a round are fixed when notify()
+    // is called, whatever happens to that observer (and its closure) while the round is running
+    static long notify_cell(S &s, int &cell, int a) {
+        cell = a * 7 + 1;
+        s.notify(cell);
+        return 0;
+    }
     template <class F>
     static auto cb(F f) {
         return [f](int v) { f(v); };
@@ -131,13 +138,18 @@ struct Run {
         return nullptr;
     }
 
-    void run_script(int self, const Script &sc) {
+    void run_script(int self, const Script &sc, int *cell = nullptr) {
         for (const Op &op : sc) {
             int t = op.t == 0 ? self : op.t;
             if (op.k == "notify") {
                 if (g_depth < g_max_depth) {
                     ++g_depth;
-                    Sig::notify(*subject, g_cur_arg);
+                    // the cell belongs to the observer's closure: only usable while that observer still exists
+                    if constexpr (requires(S &s, int &c) { Sig::notify_cell(s, c, 0); }) {
+                        if (cell != nullptr && find(self) != nullptr) Sig::notify_cell(*subject, *cell, g_cur_arg);
+                        else Sig::notify(*subject, g_cur_arg);
+                    } else
+                        Sig::notify(*subject, g_cur_arg);
                     --g_depth;
                 }
             } else if (op.k == "sub") {
@@ -160,13 +172,16 @@ struct Run {
     Sub do_subscribe(const Script &sc, bool start_muted = false) {
         int id = next_id++;
         auto tracker = std::make_shared<Tracker>(id);
-        auto f = [this, id, sc, tracker](long v) {
+        auto cell = std::make_shared<int>(0);   // owned by the closure alone: gone when the observer is destroyed
+        auto f = [this, id, sc, tracker, cell](long v) {
             Script local = sc;  // the callback may destroy its own observer (and this closure): work on copies
             Run *self = this;
             int myid = id;
+            int *c = cell.get();
             g_log.push_back({myid, v, g_depth});
-            self->run_script(myid, local);
+            self->run_script(myid, local, c);
         };
+        cell.reset();
         // three construction paths of ObserverAutoPtr: invocable, unique_ptr of a derived observer, raw pointer
         using EO = typename Sig::EO;
         using Func = typename S::Observer_t::Func;
